@@ -2,27 +2,37 @@
 import glob, json, os, shutil
 import vlib
 
-TARGETS = ["Base/Corr.vo", "C15/Model.vo", "C15/ModelBuf.vo", "C15/Corr.vo", "C15/Spec.vo", "C15/SpecTest.vo",
+TARGETS = ["Base/Corr.vo", "C15/Model.vo", "C15/ModelBuf.vo", "C15/ModelCH.vo", "C15/Corr.vo", "C15/CorrCH.vo", "C15/Spec.vo", "C15/SpecTest.vo",
            "C15/ProofsSum.vo", "C15/ProofsFwd.vo", "C15/ProofsBwd.vo", "C15/ProofsBuf.vo", "C15/ProofsOpt.vo", "C15/ProofsVit.vo",
            "C15/ProofsVitInst.vo", "C15/ProofsMix.vo", "C15/ProofsLog.vo", "C15/ProofsTop.vo", "C15/ProofsPost.vo", "C15/ProofsBW.vo", "C15/ProofsTop2.vo",
-           "C15/Proofs.vo", "C15/Props.vo"]
-PROPS = ["C15/Props.v"]
-PARTIAL = ("Theorems are about the hand-written semiring-polymorphic models coq/C15/Model.v (pure functions) and "
+           "C15/Proofs.vo", "C15/Props.vo", "C15/ProofsCH.vo", "C15/PropsCH.vo"]
+PROPS = ["C15/Props.v", "C15/PropsCH.v"]
+PARTIAL = ("Theorems are about the hand-written semiring-polymorphic models coq/C15/Model.v (pure functions), "
            "coq/C15/ModelBuf.v (forward/backward/float64 copies, Posterior and one Baum-Welch step of a thread as state "
-           "transformers on work buffers with arbitrary prior content); exact arithmetic in a commutative semiring; the "
-           "log-space float code is connected through the ln/exp isomorphism stated over R and, per sampled case, through "
-           "the exact-rational comparison of exp(value) with relative tolerance 2^-36; binary64 rounding itself is not "
-           "proved. Posterior theorem: duplicate-free state sets below m (lists with duplicates are compared per case "
-           "only). Baum-Welch: the expected counts (pi, tr, gamma, likelihood) of ONE thread are proved equal to the "
-           "enumerated posterior expectations; the temporaries xi/gamma0/gammaTmp are not modelled as state (they are "
-           "poisoned in the correspondence run), merging several threads is C17, the emission M-step C16, the "
-           "re-normalisation (hmm1.normalize) is executed in the model and compared but has no theorem. Constrained / "
-           "hierarchical HMM wrappers, matrixDistribution.Hmm and the vectorClassifier front-ends have no theorem and are "
-           "not exercised.")
+           "transformers on work buffers with arbitrary prior content) and coq/C15/ModelCH.v (constrained / hierarchical "
+           "transition matrices); exact arithmetic in a commutative semiring; the log-space float code is connected "
+           "through the ln/exp isomorphism stated over R and, per sampled case, through the exact-rational comparison of "
+           "exp(value) with relative tolerance 2^-36; binary64 rounding itself is not proved. Posterior theorem: "
+           "duplicate-free state sets below m; with repeated states the claim is refuted (multiset value, compared per "
+           "case). Constrained HMM: the Lagrange multipliers of ChmmTransitionMatrix.Normalize come from Newton's method "
+           "and are oracle data (theorems hold for every multiplier vector; that the rows then sum to one is exactly the "
+           "root condition and is checked per case at 2^-20, not proved). Hierarchical HMM: row-stochasticity proved for "
+           "leaf blocks only (inner nodes: per case, exact). Baum-Welch: expected counts of ONE thread; merging threads is "
+           "C17, the emission M-step C16; hmm1.normalize is executed and compared, no theorem. matrixDistribution.Hmm / "
+           "ShapeHmm share generic.Hmm's inference code and differ only in the emission table, over which the theorems "
+           "quantify; the vectorClassifier front-ends are not exercised.")
 # genuine quirks of the unchanged library, matched narrowly (id, site, fixed witness evaluated by the harness)
 KNOWN_IDS = {
     "F-C15-TF-SELFLOOP": "statistics/generic/hmm_utility.go:126 (HmmTransitionMatrix.Normalize via Hmm.normalizeTf): a state without "
                          "transitions into the final states gets Tf[i][i] = 1, so sequences can end outside the final states",
+    "F-C15-HHMM-FINAL-NAN": "statistics/generic/hierarchicalHmm.go:226-235 (normalizeLeaf via Hmm.normalizeTf / SetFinalStates): a leaf "
+                            "without a final state has all-zero masked rows, -Inf - -Inf = NaN in Tf, LogPdf of every sequence of length >= 2 is NaN",
+    "F-C15-HHMM-FINAL-LEAK": "statistics/generic/hierarchicalHmm.go:190-214 (normalizeInt via Hmm.normalizeTf / SetFinalStates): the block "
+                             "between two children is overwritten with its average, masked non-final columns get probability again",
+    "F-C15-HHMM-ZEROROW-NAN": "statistics/generic/hierarchicalHmm.go:226-235 (normalizeLeaf): a row without mass inside its leaf yields NaN "
+                              "entries, NewHhmmTransitionMatrix / NewHierarchicalHmm return no error",
+    "F-C15-CHMM-FINAL-TIE": "statistics/generic/constrainedHmm.go:199-201 (normalize(lambda) via Hmm.normalizeTf / SetFinalStates): a constraint "
+                            "group spanning a final and a non-final column re-creates the masked transition in Tf",
 }
 HOOK_SRC = os.path.join(vlib.ROOT, "harness", "c15", "hook", "verif_c15.go.txt")
 
@@ -101,8 +111,9 @@ def run(ctx):
     install_hook()
     ok, failures = vlib.proof_stage(ctx, TARGETS, PROPS)
     thms = vlib.theorem_names(os.path.join(vlib.COQ, "C15/Props.v"))
+    thms2 = vlib.theorem_names(os.path.join(vlib.COQ, "C15/PropsCH.v"))
     if ok:
-        ctx.cov["print_assumptions"] = vlib.print_assumptions("C15", [("C15.Props", thms)], ctx.dir)
+        ctx.cov["print_assumptions"] = vlib.print_assumptions("C15", [("C15.Props", thms), ("C15.PropsCH", thms2)], ctx.dir)
     binary, blog = vlib.build_harness("c15")
     if binary is None:
         ctx.violation({"obligation": "build of harness/c15 against the library", "log": blog[-3000:]}, False,
@@ -139,7 +150,7 @@ def replay(ctx, path):
         print("replay names a broken obligation, not an input: %s" % rp.get("obligation"))
         ok, failures = vlib.proof_stage(ctx, TARGETS, PROPS)
         return 0 if ok else 1
-    vlib.coq_make(["C15/Corr.vo"])
+    vlib.coq_make(["C15/CorrCH.vo"])
     rc, out = vlib.sh([binary, "--replay", path, "--out", ctx.dir], env=vlib.go_env())
     res = vlib.eval_shards(sorted(glob.glob(os.path.join(ctx.dir, "replay_*.v"))))
     hin = os.path.join(ctx.dir, "hunt_in.json")
